@@ -14,6 +14,7 @@ import (
 	"fmt"
 	"os"
 	"path/filepath"
+	"runtime"
 	"strings"
 	"sync"
 	"sync/atomic"
@@ -635,4 +636,94 @@ func sortStrings(s []string) {
 			s[j], s[j-1] = s[j-1], s[j]
 		}
 	}
+}
+
+// ---------------------------------------------------------------------------------------------
+// first confirmation of a hash under concurrent requests
+
+// TestVerifC17_ConfirmationRace: peers announce a hash nobody has confirmed yet; then 2-4 requests
+// for that hash start together (each of them confirms the hash, the first one promotes the
+// announcers), optionally while its header arrives as well. Every announcer is eligible, so every
+// request must be handed one of them; a request that is still waiting after the liveness bound
+// means the announcers were lost on the way.
+func TestVerifC17_ConfirmationRace(t *testing.T) {
+	defer vk.Flush()
+	wd := c17StartWatchdog("confirmation-race")
+	defer wd.close()
+	reps := c17Reps()
+	hash := share.DataHash(make([]byte, share.DataHashSize))
+	copy(hash, "verif-confirmation-race")
+	rapid.Check(t, func(rt *rapid.T) {
+		nAnn := rapid.IntRange(1, 3).Draw(rt, "announcers")
+		nReq := rapid.IntRange(2, 4).Draw(rt, "requests")
+		withHeader := rapid.Bool().Draw(rt, "header")
+		stagger := rapid.IntRange(0, 3).Draw(rt, "stagger")
+		desc := fmt.Sprintf("%d announcer(s) of an unconfirmed hash, then %d concurrent Peer requests for it, header arrives concurrently=%v, stagger=%d",
+			nAnn, nReq, withHeader, stagger)
+		wd.setDescribe(func() string { return desc })
+		if vk.KnownOpen(c17SigValidationRace) {
+			vk.Excluded(c17SigValidationRace)
+			rt.Skip("known finding")
+		}
+		for rep := 0; rep < reps*4; rep++ {
+			env, err := newC17Env(*DefaultParameters(), "self")
+			if err != nil {
+				rt.Fatalf("VERIF-INFRA: cannot build manager: %v", err)
+			}
+			ann := map[peer.ID]bool{}
+			for i := 0; i < nAnn; i++ {
+				id := peer.ID(fmt.Sprintf("p%d", i))
+				ann[id] = true
+				env.mgr.Validate(context.Background(), id, shrexsub.Notification{DataHash: hash, Height: 5})
+			}
+			ctx, cancel := context.WithCancel(context.Background())
+			res := make(chan c17PeerRes, nReq)
+			startCh := make(chan struct{})
+			for i := 0; i < nReq; i++ {
+				i := i
+				go func() {
+					<-startCh
+					for k := 0; k < i*stagger; k++ {
+						runtime.Gosched()
+					}
+					wd.begin()
+					id, done, err := env.mgr.Peer(ctx, hash, 5)
+					wd.end()
+					res <- c17PeerRes{id, done, err}
+				}()
+			}
+			close(startCh)
+			if withHeader {
+				env.header(hash, 5)
+			}
+			tm := time.NewTimer(c17HangBound)
+			for i := 0; i < nReq; i++ {
+				select {
+				case r := <-res:
+					if r.err != nil || !ann[r.id] {
+						cancel()
+						rt.Fatalf("C17/request-returns: Peer returned (%q, %v); want one of the %d announcers of the requested hash\ncase: %s", string(r.id), r.err, nAnn, desc)
+					}
+				case <-tm.C:
+					var where []string
+					for id := range ann {
+						st, ok := c17Status(env.mgr.getPool(hash.String()).pool, id)
+						where = append(where, fmt.Sprintf("%s: hash pool=%s, general pool member=%v", string(id), c17StatusName(st, ok), env.mgr.nodes.has(id)))
+					}
+					sortStrings(where)
+					cancel()
+					c17ShrinkBound()
+					rt.Fatalf("C17/request-returns: %d of %d concurrent Peer requests for a hash with %d eligible announcer(s) still wait after %s; announcers now: %v\ncase: %s",
+						nReq-i, nReq, nAnn, c17HangBound, where, desc)
+				}
+			}
+			tm.Stop()
+			cancel()
+			if err := env.stop(); err != nil {
+				rt.Fatalf("C17/cancellation-honoured: %v", err)
+			}
+		}
+		vk.Record(desc, []string{"tier=confirmation-race", fmt.Sprintf("requests=%d", nReq), fmt.Sprintf("header=%v", withHeader)}, true,
+			func() any { return desc })
+	})
 }
